@@ -188,9 +188,51 @@ def check_many_types(case, R: engine.Acc):
     R.outcome("many-types-ok")
 
 
+API_FLOATS = [0.0, -0.0, 1.0, 0.1, 0.5, 255.0, 255.5, 256.0, -128.0, -129.0, 65504.0, 65505.0, 65520.0, 3.4028234663852886e38, 3.4028235e38, 3.402823466385289e38, -3.4028234663852886e38,
+              1.7976931348623157e308, -1.7976931348623157e308, 2.0**63, -(2.0**63), 2.0**64, 2.0**63 - 1024.0, 2.0**53 + 2.0, 4**31.5, 1e-320, 5e-324, 1e22, 1e23, 123456789.125]
+
+
+def check_api_constants(case, R: engine.Acc):
+    """Constants built with the PUBLIC constructors; values handed over as Rational(int | Fraction | float), Boolean, String.  A float
+    is the rational number it denotes exactly (binary expansion), not its shortest decimal spelling."""
+    import pydsdl
+    from ..gen import types as T
+
+    desc = case["desc"]
+    dtype = T.build(desc)
+    values = [("q", Fraction(f), (lambda f=f: pydsdl.Rational(f)), "float:%r" % f) for f in API_FLOATS]
+    for q in (Fraction(0), Fraction(1), Fraction(-1), Fraction(1, 3), Fraction(255), Fraction(256), Fraction(2**64 - 1), Fraction(2**64), Fraction(-(2**63)), Fraction(2**63 - 1), Fraction(10**40), C.float_max(16), C.float_max(32), C.float_max(64), C.float_max(64) + 1):
+        values.append(("q", q, (lambda q=q: pydsdl.Rational(q)), "fraction:%s" % q))
+        if q.denominator == 1:
+            values.append(("q", q, (lambda q=q: pydsdl.Rational(int(q))), "int:%s" % q))
+    values += [("bool", True, lambda: pydsdl.Boolean(True), "bool:true"), ("bool", False, lambda: pydsdl.Boolean(False), "bool:false"), ("str", "a", lambda: pydsdl.String("a"), "str:a"), ("str", "ab", lambda: pydsdl.String("ab"), "str:ab"), ("str", "\u212a", lambda: pydsdl.String("\u212a"), "str:kelvin")]
+    from .. import dump
+
+    for kind, pv, mk, label in values:
+        exp = expected(desc, kind, pv)
+        one = {"kind": "api-constants", "desc": desc, "value": label}
+        R.case([desc, label], nontrivial=True, sample=False)
+        try:
+            c = pydsdl.Constant(dtype, "K", mk())
+            got = dump.value(c.value)
+        except pydsdl.InvalidDefinitionError:
+            got = None
+        if exp is None and got is not None:
+            R.outcome("noncompliant-accepted")
+            R.violation("noncompliant-initializer-accepted:api:%s:%s" % (desc[0], kind), "a non-compliant initializer is rejected", one, observed=got, expected="InvalidDefinitionError")
+        elif exp is not None and got is None:
+            R.outcome("compliant-rejected")
+            R.violation("compliant-initializer-rejected:api:" + desc[0], "a compliant initializer is accepted", one, expected=exp)
+        elif exp != got:
+            R.outcome("value-differs")
+            R.violation("stored-value-differs:api:" + desc[0], "the stored value is the exact rational / boolean / code point", one, observed=got, expected=exp)
+        else:
+            R.outcome("api-ok")
+
+
 def plan(tier):
     shards = [{"part": p, "parts": 32} for p in range(32)]
-    shards += [{"kind": "many-types"}]
+    shards += [{"kind": "many-types"}, {"kind": "api-constants"}]
     shards += H.plan_shards(['nested-revisions'])
     return shards
 
@@ -198,6 +240,11 @@ def plan(tier):
 def cases(shard, tier):
     if shard.get("kind") == "call-histories":
         yield from H.cases_of(shard)
+        return
+    if shard.get("kind") == "api-constants":
+        for _src, desc in constant_types():
+            if desc[0] != "carrier":
+                yield {"kind": "api-constants", "desc": desc}
         return
     if shard.get("kind") == "many-types":
         yield {"kind": "many-types", "order": "ascending"}
@@ -223,6 +270,8 @@ def check_case(case, R: engine.Acc):
         return H.check_history(case["label"], R, H.project_constants, 'constant-depends-on-earlier-calls', 'a constant holds the value of its initializer as evaluated over the definitions of THIS call')
     if case.get("kind") == "many-types":
         return check_many_types(case, R)
+    if case.get("kind") == "api-constants":
+        return check_api_constants(case, R)
     desc, type_src = case["desc"], case["type_src"]
     inits = initializers(desc)
     if "init_index" in case:
